@@ -557,6 +557,19 @@ def _is_strict_subterm(e, root):
     return n > 0 and cur.eq(root)
 
 
+def self_aliases(outer, nested):
+    """{name: attr} for the top-level statements `name = self.attr` of `outer` that precede the nested function definition"""
+    import ast
+    out = {}
+    for st in outer.body:
+        if st is nested:
+            break
+        if (isinstance(st, ast.Assign) and len(st.targets) == 1 and isinstance(st.targets[0], ast.Name) and isinstance(st.value, ast.Attribute)
+                and isinstance(st.value.value, ast.Name) and st.value.value.id == 'self'):
+            out[st.targets[0].id] = st.value.attr
+    return out
+
+
 class Rec(Contract):
     rel, qualname = REL, 'Unification.__getitem__.rec'
 
@@ -566,7 +579,11 @@ class Rec(Contract):
         self._M = z3.Const('mapping', I.w.FeatMap)
         obj.attrs['mapping'] = SymMap(self._M)
         env.vars['self'] = obj
-        env.vars['rec'] = f
+        env.vars[f.node.name] = f
+        # local aliases `name = self.attr` made by the enclosing function before the nested def are part of the closure
+        self._aliases = self_aliases(I.find_function(REL, 'Unification.__getitem__').node, f.node)
+        for name, attr in self._aliases.items():
+            env.vars[name] = obj.attrs.get(attr)
         return env
 
     def cases(self, I):
@@ -574,6 +591,8 @@ class Rec(Contract):
             x = z3.Const('x', I.w.Cat)
             f = I.target
             f.env.vars['self'].attrs['mapping'] = SymMap(self._M)
+            for name, attr in self._aliases.items():
+                f.env.vars[name] = f.env.vars['self'].attrs.get(attr)
             return [Z(x)], {}, [], dict(x=x)
         yield Case('any', build)
 
